@@ -47,7 +47,24 @@ def comps(rel):
     return rel[:-3].split("/")
 
 
+# files without anything to run: 0 bytes, white space only, a comment only.  Their content is fixed, so is the source id
+# the model sees (`prog` of these ids is empty); a file may go empty -> non-empty -> empty again.
+EMPTY_TEXT = ["", "  \n\n", "# nothing to run here\n"]
+EMPTY_ID = [900001, 900002, 900003]
+CFG_NONE = -1      # an app whose yaml entry is empty (`my_app:` parses to None): configured, value None
+
+
+def gen_of_text(text):
+    """source id of a script text: the generation its first line records, or the fixed id of an empty content"""
+    if text in EMPTY_TEXT:
+        return EMPTY_ID[EMPTY_TEXT.index(text)]
+    m = re.search(r"rec\('load', [^,]*, (\d+)\)", text or "")
+    return int(m.group(1)) if m else -1
+
+
 def script_text(gen, imports):
+    if gen in EMPTY_ID:
+        return EMPTY_TEXT[EMPTY_ID.index(gen)]
     lines = [f"rec('load', pyscript.get_global_ctx(), {gen})"]
     for level, mod in imports:
         lines.append(f"import {mod}" if level == 0 else f"from {'.' * level} import {mod}")
@@ -112,20 +129,24 @@ class Sim:
     def apply(self, op, root=None):
         k = op["op"]
         if k == "write":
-            self.gen += 1
+            if op.get("empty") is not None:
+                g = EMPTY_ID[op["empty"]]
+            else:
+                self.gen += 1
+                g = self.gen
             old = self.disk.get(op["rel"])
             if op.get("keep_mtime") and old:
                 mt = old["mtime"]
             else:
                 self.clock += 1
                 mt = self.clock
-            self.disk[op["rel"]] = {"gen": self.gen, "mtime": mt, "imports": op["imports"]}
-            self.prog[self.gen] = op["imports"]
+            self.disk[op["rel"]] = {"gen": g, "mtime": mt, "imports": op["imports"]}
+            self.prog[g] = op["imports"]
             if root:
                 p = os.path.join(root, op["rel"])
                 os.makedirs(os.path.dirname(p), exist_ok=True)
                 with open(p, "w") as f:
-                    f.write(script_text(self.gen, op["imports"]))
+                    f.write(script_text(g, op["imports"]))
                 os.utime(p, (mt, mt))
         elif k == "touch":
             if op["rel"] in self.disk:
@@ -160,7 +181,14 @@ class Sim:
 
 
 def cfg_value(k):
+    if k == CFG_NONE:
+        return None
     return {} if k == 0 else {"k": k}
+
+
+def cfg_norm(k):
+    """what a context loaded with configuration id k reports as its app_config (None for an empty yaml entry)"""
+    return None if k == CFG_NONE else k
 
 
 def cfg_id(v):
@@ -180,13 +208,19 @@ def gen_tree_ops(rng, sibrel):
         if all(f in files for f in forms) and rng.random() < 0.75:
             files.remove(rng.choice(forms))
     for rel in files:
-        ops.append({"op": "write", "rel": rel, "imports": rand_imports(rng, rel, sibrel, set(files))})
+        if rng.random() < 0.08 and not sibrel:
+            ops.append({"op": "write", "rel": rel, "imports": [], "empty": rng.choice([0, 0, 1, 2])})
+        else:
+            ops.append({"op": "write", "rel": rel, "imports": rand_imports(rng, rel, sibrel, set(files))})
     return ops
 
 
 def gen_edit(rng, sim, sibrel):
     present = sorted(sim.disk)
     r = rng.random()
+    if r < 0.05 and present and not sibrel:
+        return {"op": "write", "rel": rng.choice(present), "imports": [], "empty": rng.choice([0, 0, 1, 2]),
+                "keep_mtime": rng.random() < 0.1}
     if r < 0.30 and present:
         rel = rng.choice(present)
         return {"op": "write", "rel": rel, "imports": rand_imports(rng, rel, sibrel, set(present))
@@ -208,12 +242,12 @@ def gen_edit(rng, sim, sibrel):
     app = rng.choice(["x", "y"])
     if app in sim.cfg and rng.random() < 0.5:
         return {"op": "cfg", "app": app, "val": None}
-    return {"op": "cfg", "app": app, "val": rng.choice([0, 1, 2, 3])}
+    return {"op": "cfg", "app": app, "val": rng.choice([CFG_NONE, CFG_NONE, 0, 1, 2, 3])}
 
 
 def gen_case(rng, family, nsteps):
     sibrel = family == "sibrel"
-    apps0 = {a: rng.choice([0, 1, 2]) for a in ("x", "y") if rng.random() < 0.7}
+    apps0 = {a: rng.choice([CFG_NONE, 0, 1, 2]) for a in ("x", "y") if rng.random() < 0.7}
     sim = Sim(apps0)
     steps = []
     first = gen_tree_ops(rng, sibrel)
@@ -240,6 +274,11 @@ def gen_case(rng, family, nsteps):
 
 def W(rel, *imports):
     return {"op": "write", "rel": rel, "imports": [list(i) for i in imports]}
+
+
+def E(rel, variant=0):
+    """write an empty file (0 bytes / white space / comment only)"""
+    return {"op": "write", "rel": rel, "imports": [], "empty": variant}
 
 
 def fixed_cases():
@@ -287,6 +326,27 @@ def fixed_cases():
         {"edits": [], "only": "file.zz"},
         {"edits": [], "only": "*"},
         {"edits": [], "only": None}]})
+    # files without content: an empty script, an empty module, an empty package marker are contexts like any other;
+    # the module later gets content (its importer must be re-executed) and goes empty again
+    out.append({"family": "fixed", "apps0": {}, "steps": [
+        {"edits": [E("c.py"), W("a.py", (0, "m"), (0, "p")), E("modules/m.py"), E("modules/p/__init__.py"),
+                   W("b.py", (0, "n")), E("modules/n.py", 2), E("scripts/s1.py", 1)], "only": None},
+        {"edits": [W("modules/m.py")], "only": None},
+        {"edits": [E("modules/m.py")], "only": None},
+        {"edits": [W("modules/p/__init__.py", (1, "s")), W("modules/p/s.py"), W("c.py")], "only": None},
+        {"edits": [E("a.py")], "only": None},
+        {"edits": [], "only": "file.c"},
+        {"edits": [], "only": None}]})
+    # an app whose yaml entry is empty (None) is configured: loaded, reloaded when the entry changes to {} or to real
+    # settings and back, unloaded when the entry is removed
+    out.append({"family": "fixed", "apps0": {"x": CFG_NONE, "y": CFG_NONE}, "steps": [
+        {"edits": [W("apps/x/__init__.py", (1, "h")), W("apps/x/h.py"), W("apps/y.py"), W("a.py")], "only": None},
+        {"edits": [], "only": None},
+        {"edits": [{"op": "cfg", "app": "x", "val": 0}], "only": None},
+        {"edits": [{"op": "cfg", "app": "y", "val": 2}], "only": None},
+        {"edits": [{"op": "cfg", "app": "x", "val": CFG_NONE}, {"op": "cfg", "app": "y", "val": None}], "only": None},
+        {"edits": [{"op": "cfg", "app": "y", "val": CFG_NONE}], "only": None},
+        {"edits": [{"op": "cfg", "app": "x", "val": None}], "only": None}]})
     # package form replaces module form (and back)
     out.append({"family": "fixed", "apps0": {"y": 1}, "steps": [
         {"edits": [W("a.py", (0, "m")), W("modules/m.py"), W("apps/y.py")], "only": None},
@@ -347,7 +407,7 @@ def model_line(payload):
     sim = None
     for st, snap, sim in walk(payload):
         disk = [[comps(rel), v["gen"], v["mtime"]] for rel, v in sorted(snap["disk"].items())]
-        apps = [[a, k] for a, k in sorted(snap["cfg"].items())]
+        apps = [[a, cfg_norm(k)] for a, k in sorted(snap["cfg"].items())]
         steps.append([only_sx(st["only"]), apps, disk])
     prog = [[g, [[lv] + m.split(".") for lv, m in imps]] for g, imps in sorted(sim.prog.items())] if sim else []
     return "C10 " + sx(["run", prog, steps])
@@ -365,18 +425,38 @@ def _run_one(payload):
         oids = {}       # id(ctx object) -> oid
         keep = []       # keep every context object alive so that ids are never reused
         nev = 0
+        # every execution of a script file: GlobalContextMgr.load_file parses the source into a fresh AstEval and
+        # evaluates it; the hook records (context name, source id) when that evaluation starts
+        from custom_components.pyscript import eval as ps_eval
+        loads = []
+        orig_eval = ps_eval.AstEval.eval
+
+        async def hooked_eval(self, *args, **kwargs):
+            gctx = getattr(self, "global_ctx", None)
+            if not args and not kwargs and gctx is not None and gctx.get_file_path() and \
+                    getattr(self, "filename", None) == gctx.get_file_path():
+                loads.append((gctx.get_name(), gen_of_text(gctx.get_source())))
+            return await orig_eval(self, *args, **kwargs)
+        ps_eval.AstEval.eval = hooked_eval
+        try:
+            return await steps_body(env, root, sim, oids, keep, nev, loads)
+        finally:
+            ps_eval.AstEval.eval = orig_eval
+
+    async def steps_body(env, root, sim, oids, keep, nev, loads):
         for st in payload["steps"]:
             for op in st["edits"]:
                 sim.apply(op, root)
             env.config["pyscript"]["apps"] = {a: cfg_value(k) for a, k in sim.cfg.items()}
             env.records.clear()
             env.log.clear()
+            del loads[:]
             try:
                 await env.reload(st["only"])
                 err = None
             except Exception as e:  # an exception escaping the reload service is an outcome
                 err = type(e).__name__
-            events = [(r[2], r[3]) for r in env.records if len(r) >= 4 and r[1] == "load"]
+            events = list(loads)
             last = {}
             for i, (n, g) in enumerate(events):
                 last[n] = nev + i
@@ -385,8 +465,8 @@ def _run_one(payload):
                 if id(ctx) not in oids:
                     oids[id(ctx)] = last.get(name, -1)
                     keep.append(ctx)
-                m = re.search(r"rec\('load', [^,]*, (\d+)\)", ctx.get_source() or "")
-                ctxs.append({"name": name, "gen": int(m.group(1)) if m else -1, "oid": oids[id(ctx)],
+                ctxs.append({"name": name, "gen": gen_of_text(ctx.get_source() if ctx.get_source() is not None else None),
+                             "oid": oids[id(ctx)],
                              "mod": 1 if ctx.module is not None else 0, "imports": sorted(ctx.get_imports()),
                              "mtime": int(ctx.get_mtime() or 0), "appcfg": cfg_id(ctx.get_app_config()),
                              "path": os.path.relpath(ctx.get_file_path(), root) if ctx.get_file_path() else None})
@@ -444,7 +524,7 @@ def run_impl(cases):
             ev = " ".join(f"{n}:{g}" for n, g in o["events"])
             cx = " ".join(f"{x['name']}:{x['gen']}:{x['oid']}:{x['mod']}:{','.join(x['imports'])}" for x in o["ctxs"])
             if st["only"] is None:
-                d = "(" + " ".join(sorted(oracle_disc(prev, doc_entries(snap)))) + ")"
+                d = "(" + " ".join(sorted(oracle_disc(prev, doc_entries(snap, code_view=True)))) + ")"
             else:
                 d = "-"
             blocks.append(f"ev=({ev}) ctx=({cx}) disc={d}")
@@ -466,9 +546,12 @@ def doc_name(cs):
     return ".".join(cs)
 
 
-def doc_entries(snap):
+def doc_entries(snap, code_view=False):
     """name -> entry for every file pyscript is documented to know about (reference.rst: file list, '#', apps gating,
-    'module form is ignored if the package form is present')"""
+    'module form is ignored if the package form is present').
+    code_view=True is the table as `Spec.Disc` of the Lean side sees it (the output of glob_read_files): the
+    `__init__.py` of an app that is NOT configured still appears there, as a not auto-loaded file without configuration
+    (it matches the `apps/*/**/*.py` row).  Only used for the `disc=` column of the tie, never for the verdict."""
     cfg = snap["cfg"]
     best = {}
     for rel, v in sorted(snap["disk"].items()):
@@ -484,11 +567,13 @@ def doc_entries(snap):
             if len(cs) == 2:
                 if cs[1] not in cfg:
                     continue
-                auto, appcfg, prio = True, cfg[cs[1]], 1
+                auto, appcfg, prio = True, cfg_norm(cfg[cs[1]]), 1
             elif len(cs) == 3 and cs[2] == "__init__":
                 if cs[1] not in cfg:
-                    continue
-                auto, appcfg = True, cfg[cs[1]]
+                    if not code_view:
+                        continue
+                else:
+                    auto, appcfg = True, cfg_norm(cfg[cs[1]])
         elif cs[0] == "modules":
             if len(cs) == 2:
                 prio = 1
@@ -629,6 +714,7 @@ def ref_load(ents):
 
 UNKNOWN_FIRST = ["harness", "raise", "wrong-source", "discarded-untouched", "stale-importer:other", "missing",
                  "unexpected-context", "double-load", "not-reexecuted", "only-widening",
+                 "app-kept:empty-entry-removed",
                  "misnamed:sibling-relative-import", "not-loaded:cyclic-import", "stale-importer:widened-package",
                  "stale-importer:deleted-file", "orphan-module"]
 
@@ -673,6 +759,10 @@ def deviations(payload):
                         stale[n] = "stale-importer:widened-package"
                         devs.append(("stale-importer:widened-package",
                                      f"step {idx}: {n} kept although it imports a package that was discarded"))
+                    elif _empty_entry_removed(n, prevd, snap):
+                        stale[n] = "app-kept:empty-entry-removed"
+                        devs.append(("app-kept:empty-entry-removed",
+                                     f"step {idx}: {n} kept although its app is no longer configured (its entry was empty)"))
                     else:
                         stale[n] = "stale-importer:other"
                         devs.append(("stale-importer:other", f"step {idx}: {n} kept but must be discarded"))
@@ -754,6 +844,8 @@ def deviations(payload):
                     if n in sibrel_targets:
                         devs.append(("misnamed:sibling-relative-import",
                                      f"step {idx}: context {n} created for file {c['path']}"))
+                    elif n in stale:
+                        pass   # already reported above: kept although it had to be discarded
                     elif c["mod"] and n in kept:
                         devs.append(("orphan-module", f"step {idx}: module {n} of a vanished file still loaded"))
                     else:
@@ -767,6 +859,16 @@ def deviations(payload):
                 devs.append(("not-reexecuted", f"step {idx}: new context {n} without load event"))
         prev = o["ctxs"]
     return devs
+
+
+def _empty_entry_removed(n, prevd, snap):
+    """n belongs to a package-form app that was loaded with an EMPTY yaml entry (configuration None) and whose entry
+    has now been removed"""
+    p = n.split(".")
+    if len(p) < 2 or p[0] != "apps" or p[1] in snap["cfg"]:
+        return False
+    root = prevd.get("apps." + p[1])
+    return root is not None and root["appcfg"] is None and f"apps/{p[1]}/__init__.py" in snap["disk"]
 
 
 def _direct_importers(ents, target):
